@@ -277,8 +277,23 @@ def rule_R3(ctx, f):
         by_field.setdefault(fld, []).append(c)
     ids_local = [peel(c.args[0]) for c in b.calls_to("HashSet::insert") if self_field_of(c.args[0]) is None]
     ext = by_field.get("desc_ids", [])
-    ok = len(ext) == 1 and hasattr(ext[0], "bb") and ext[0].matches(["Extend::extend", "HashSet::extend"]) and b.dominates(vac, ext[0].bb) and ids_local and peel(ext[0].args[1]) == ids_local[0]
-    ctx.ob(rid, "register|commit-ids", ok, "on success desc_ids must be extended with exactly the local id set (found %s)" % [show(c.args[1]) if hasattr(c, "args") else c for c in ext],
+    ok = len(ext) == 1 and hasattr(ext[0], "bb") and b.dominates(vac, ext[0].bb) and bool(ids_local)
+    if ok and ext[0].matches(["Extend::extend", "HashSet::extend"]):
+        ok = peel(ext[0].args[1]) == ids_local[0]
+    elif ok and ext[0].matches("HashSet::insert"):
+        # `for id in local_set { self.desc_ids.insert(id) }`: every element, unconditionally
+        e = elem_of(peel(ext[0].args[1]))
+        ok = bool(e) and peel(e[0]) == ids_local[0] and not [a for a in e[1] if a not in ("into_iter", "iter", "drain", "copied", "cloned")] and not e[2]
+        if ok:
+            nx = [c for c in b.calls_to("Iterator::next") if ext[0].bb in b.reach(c.bb) and (lambda ee: ee and peel(ee[0]) == ids_local[0])(elem_of(("field", ("downcast", c.result_term(), "Some"), "0")))]
+            ok = len(nx) == 1
+            if ok:
+                si2 = b.switch_info(nx[0].target)
+                be2 = [t for v, t in si2[1] if v == 1][0]
+                ok = b.all_paths_pass(be2, [ext[0].bb], dst_set={nx[0].bb})
+    else:
+        ok = False
+    ctx.ob(rid, "register|commit-ids", ok, "on success desc_ids must receive exactly the local id set (extend, or an unconditional insert of every element) (found %s)" % [show(c.args[1]) if hasattr(c, "args") else c for c in ext],
            site=ext[0].span if ext and hasattr(ext[0], "span") else b.raw["span"]["at"])
     col = by_field.get("collectors_by_id", [])
     ok = len(col) == 1 and hasattr(col[0], "bb") and col[0].matches("VacantEntry::insert") and b.dominates(vac, col[0].bb) and any(s == P2 for s in subterms(col[0].args[1]))
